@@ -123,6 +123,8 @@ impl<'tx> Tx<'tx> {
         crate::verif::point("begin.freelist_cloned", writable as u64);
         let mut meta;
         {
+            #[cfg(feature = "verif-hooks")]
+            crate::verif::point("begin.before_readers_lock", writable as u64);
             let mut open_ro_txs = db.inner.open_ro_txs.lock().unwrap();
             // The meta page must be read while holding this lock: a read-only transaction has to
             // be registered under the snapshot it is going to read before any writer can decide
